@@ -63,7 +63,7 @@ theorem tloop_spec (P : Version → Prop) {selem : Span} (hs : SpanOK s selem) (
     (hPs : AllB P selem) :
     ∀ (ts acc : List Span), (∀ t ∈ ts, SpanOK s t) → (∀ t ∈ ts, AllB P t) → MinSorted s ts →
       ∃ add, VSet.intersect.tloop selem ts acc = .ok (acc ++ add) ∧
-        (∀ x ∈ add, SpanOK s x ∧ AllB P x) ∧
+        (∀ x ∈ add, SpanOK s x ∧ AllB P x) ∧ add.length ≤ ts.length ∧
         ∀ v, anyHas s add v = (has s selem v && anyHas s ts v) := by
   obtain ⟨a, b, h1, h2, ha, hb, hab, hfl, -, -⟩ := hs.bounds hne
   have hab' : pt s a < pt s b ∨ (pt s a ≤ pt s b ∧ selem.minOpen = false ∧ selem.maxOpen = false) := by
@@ -74,7 +74,7 @@ theorem tloop_spec (P : Version → Prop) {selem : Span} (hs : SpanOK s selem) (
   induction ts with
   | nil =>
     intro acc _ _ _
-    exact ⟨[], by simp [VSet.intersect.tloop], by simp, by simp⟩
+    exact ⟨[], by simp [VSet.intersect.tloop], by simp, by simp, by simp⟩
   | cons telem rest ih =>
     intro acc hok hP hsorted
     have hrest_ok : ∀ t ∈ rest, SpanOK s t := fun t ht => hok t (List.mem_cons_of_mem _ ht)
@@ -82,8 +82,8 @@ theorem tloop_spec (P : Version → Prop) {selem : Span} (hs : SpanOK s selem) (
     have hrest_sorted : MinSorted s rest := (List.pairwise_cons.mp hsorted).2
     rw [VSet.intersect.tloop]
     by_cases hte : telem.rank = .empty
-    · obtain ⟨add, e, hadd, hv⟩ := ih acc hrest_ok hrest_P hrest_sorted
-      refine ⟨add, by simp [hte, e], hadd, ?_⟩
+    · obtain ⟨add, e, hadd, hlen, hv⟩ := ih acc hrest_ok hrest_P hrest_sorted
+      refine ⟨add, by simp [hte, e], hadd, by simp; omega, ?_⟩
       intro v
       rw [hv v, anyHas_cons, has_empty hte, Bool.false_or]
     · have htok := hok telem List.mem_cons_self
@@ -97,8 +97,8 @@ theorem tloop_spec (P : Version → Prop) {selem : Span} (hs : SpanOK s selem) (
         ok_bind, vGreater_eq hc.1 hb.1, vGreater_eq hc.1 ha.1, vEqual_eq hc.1 ha.1, vLess_eq hd.1 hb.1,
         vEqual_eq hd.1 hb.1, Bool.or_eq_true, Bool.and_eq_true, decide_eq_true_eq]
       by_cases hskip : pt s d < pt s a ∨ ((pt s d ≤ pt s a ∧ pt s a ≤ pt s d) ∧ telem.maxOpen = true)
-      · obtain ⟨add, e, hadd, hv⟩ := ih acc hrest_ok hrest_P hrest_sorted
-        refine ⟨add, by simp only [hskip, ↓reduceIte, e], hadd, ?_⟩
+      · obtain ⟨add, e, hadd, hlen, hv⟩ := ih acc hrest_ok hrest_P hrest_sorted
+        refine ⟨add, by simp only [hskip, ↓reduceIte, e], hadd, by simp; omega, ?_⟩
         intro v
         rw [hv v, anyHas_cons, has_eq hne h1 h2, has_eq hte t1 t2]
         have := skip_inItv (pt s a) (pt s b) (pt s c) (pt s d) (pt s v) selem.minOpen selem.maxOpen
@@ -107,7 +107,7 @@ theorem tloop_spec (P : Version → Prop) {selem : Span} (hs : SpanOK s selem) (
           by_cases q2 : inItv (pt s c) telem.minOpen (pt s d) telem.maxOpen (pt s v) <;> simp_all
       · simp only [hskip, ↓reduceIte]
         by_cases hbrk : pt s b < pt s c
-        · refine ⟨[], by simp [hbrk], by simp, ?_⟩
+        · refine ⟨[], by simp [hbrk], by simp, by simp, ?_⟩
           intro v
           simp only [anyHas_nil]
           symm
@@ -153,8 +153,8 @@ theorem tloop_spec (P : Version → Prop) {selem : Span} (hs : SpanOK s selem) (
           generalize (if pt s d < pt s b ∨ (pt s d ≤ pt s b ∧ pt s b ≤ pt s d) ∧ telem.maxOpen = true then telem.maxOpen else selem.maxOpen) = hiO
             at hlaw ⊢
           obtain ⟨sp, e, spok, sphas, spmin, spmax⟩ := newSpan_spec hloOK hhiOK loO hiO (hlaw a).1
-          obtain ⟨add, e2, hadd, hv⟩ := ih (acc ++ [sp]) hrest_ok hrest_P hrest_sorted
-          refine ⟨sp :: add, by simp [e, e2], ?_, ?_⟩
+          obtain ⟨add, e2, hadd, hlen, hv⟩ := ih (acc ++ [sp]) hrest_ok hrest_P hrest_sorted
+          refine ⟨sp :: add, by simp [e, e2], ?_, by simp; omega, ?_⟩
           · intro x hx
             rcases List.mem_cons.mp hx with rfl | hx
             · refine ⟨spok, ?_, ?_⟩
@@ -179,28 +179,30 @@ theorem sloop_spec (P : Version → Prop) (ts : List Span) (htok : ∀ t ∈ ts,
       ∃ add, List.foldlM (fun acc selem =>
           if (selem.rank == Rank.empty) = true then Outcome.ok acc
           else VSet.intersect.tloop selem ts acc) acc ss = .ok (acc ++ add) ∧
-        (∀ x ∈ add, SpanOK s x ∧ AllB P x) ∧
+        (∀ x ∈ add, SpanOK s x ∧ AllB P x) ∧ add.length ≤ ss.length * ts.length ∧
         ∀ v, anyHas s add v = (anyHas s ss v && anyHas s ts v) := by
   intro ss
   induction ss with
-  | nil => intro acc _ _; exact ⟨[], by simp [List.foldlM], by simp, by simp⟩
+  | nil => intro acc _ _; exact ⟨[], by simp [List.foldlM], by simp, by simp, by simp⟩
   | cons selem rest ih =>
     intro acc hok hP
     have hrok : ∀ x ∈ rest, SpanOK s x := fun x hx => hok x (List.mem_cons_of_mem _ hx)
     have hrP : ∀ x ∈ rest, AllB P x := fun x hx => hP x (List.mem_cons_of_mem _ hx)
     rw [List.foldlM_cons]
     by_cases hse : selem.rank = .empty
-    · obtain ⟨add, e, hadd, hv⟩ := ih acc hrok hrP
+    · obtain ⟨add, e, hadd, hlen, hv⟩ := ih acc hrok hrP
       have hse'' : (selem.rank == Rank.empty) = true := by simp [hse]
-      refine ⟨add, by simp only [hse'', ↓reduceIte, ok_bind, e], hadd, ?_⟩
+      refine ⟨add, by simp only [hse'', ↓reduceIte, ok_bind, e], hadd, ?_, ?_⟩
+      · simp only [List.length_cons, Nat.add_mul]; omega
       intro v
       rw [hv v, anyHas_cons, has_empty hse, Bool.false_or]
     · have hse' : (selem.rank == Rank.empty) = false := by simpa using hse
-      obtain ⟨add1, e1, hadd1, hv1⟩ := tloop_spec P (hok selem List.mem_cons_self) hse
+      obtain ⟨add1, e1, hadd1, hlen1, hv1⟩ := tloop_spec P (hok selem List.mem_cons_self) hse
         (hP selem List.mem_cons_self) ts acc htok htP hsorted
-      obtain ⟨add2, e2, hadd2, hv2⟩ := ih (acc ++ add1) hrok hrP
+      obtain ⟨add2, e2, hadd2, hlen2, hv2⟩ := ih (acc ++ add1) hrok hrP
       refine ⟨add1 ++ add2, by
-        simp only [hse', Bool.false_eq_true, ↓reduceIte, e1, ok_bind, e2, List.append_assoc], ?_, ?_⟩
+        simp only [hse', Bool.false_eq_true, ↓reduceIte, e1, ok_bind, e2, List.append_assoc], ?_, by
+        simp only [List.length_append, List.length_cons, Nat.add_mul]; omega, ?_⟩
       · intro x hx
         rcases List.mem_append.mp hx with h | h
         · exact hadd1 x h
@@ -214,12 +216,13 @@ theorem intersect_eq (P : Version → Prop) (A B : VSet) (hA : ∀ x ∈ A.span,
     (hB : ∀ x ∈ B.span, SpanOK s x) (hAP : ∀ x ∈ A.span, AllB P x) (hBP : ∀ x ∈ B.span, AllB P x)
     (hsorted : MinSorted s B.span) :
     ∃ out, out ≠ [] ∧ (∀ x ∈ out, SpanOK s x ∧ AllB P x) ∧
+      (A.span.length * B.span.length ≤ 1 → out.length ≤ 1) ∧
       (∀ v, anyHas s out v = (anyHas s A.span v && anyHas s B.span v)) ∧
       VSet.intersect A B = (canonSpans out >>= fun sp => Outcome.ok { A with span := sp }) := by
-  obtain ⟨add, e, hadd, hv⟩ := sloop_spec P B.span hB hBP hsorted A.span [] hA hAP
+  obtain ⟨add, e, hadd, hlen, hv⟩ := sloop_spec P B.span hB hBP hsorted A.span [] hA hAP
   rw [List.nil_append] at e
   by_cases hempty : add = []
-  · refine ⟨[Span.emptySpan], by simp, ?_, ?_, ?_⟩
+  · refine ⟨[Span.emptySpan], by simp, ?_, by simp, ?_, ?_⟩
     · intro x hx
       rw [List.mem_singleton] at hx
       subst hx
@@ -230,7 +233,7 @@ theorem intersect_eq (P : Version → Prop) (A B : VSet) (hA : ∀ x ∈ A.span,
     · unfold VSet.intersect
       rw [e]
       simp only [ok_bind, hempty, List.isEmpty_nil, ↓reduceIte]
-  · refine ⟨add, hempty, hadd, hv, ?_⟩
+  · refine ⟨add, hempty, hadd, fun h => by omega, hv, ?_⟩
     unfold VSet.intersect
     rw [e]
     have : add.isEmpty = false := by
